@@ -331,6 +331,26 @@ class TOpaque(Type):
         raise Unsupported(f"cannot use {v!r} as opaque")
 
 
+class TOpt(Type):
+    """T or None: decided once per path when the value is created (both alternatives are explored)."""
+
+    def __init__(self, inner):
+        self.inner = inner
+        self.name = inner.name + "?"
+
+    def fresh(self, ctx, hint):
+        if ctx.branch(ctx.fresh(hint + "_is_none", z3.BoolSort())):
+            return None
+        return self.inner.fresh(ctx, hint)
+
+    def invariant(self, v):
+        return z3.BoolVal(True) if v is None else self.inner.invariant(v)
+
+    def coerce(self, v, ctx):
+        c = getattr(self.inner, "coerce", None)
+        return v if v is None or c is None else c(v, ctx)
+
+
 class TNone(Type):
     name = "None"
 
